@@ -128,6 +128,13 @@ CHECKS["C12"] = dict(
     technique="exhaustive exploration of owned nondeterminism (enumerated hash seeds with measured order coverage) and explicit-state search over same-process histories on the real pipeline",
 )
 
+CHECKS["C13"] = dict(
+    category="model_checking",
+    text="Explicit-state breadth-first search with a reference model. State = the output directory tree (path -> bytes); reference model = a dict; operations = run the REAL mamba binary (built from /repo's working tree) on a project into the SAME output directory. File pool: a.mamba (class + functions, in a short version and a long version that also needs support imports), sub/b.mamba (uses a's class and function), sub/deep/c.mamba (independent), d.mamba (fresh names only), each with a lexical-, syntax- and type-faulty twin. Projects = every non-empty subset of the 4 files x both versions of a, plus every choice of one faulty file and fault kind (103 quick / 155 thorough projects, x annotate). BFS over ALL operation sequences to depth 2 (quick, frontier thinned to 10 distinct trees after level 1) / 3 (thorough, default and custom -i/-o layout), states deduplicated on the canonical tree; in every state: success => previous tree overwritten with exactly one .py per .mamba at the mirrored path, nothing else created or modified, bytes equal to those the same project gives into an empty directory; failure => exit status != 0, output tree byte-identical to before, every diagnostic header names a faulty file's relative path and only those; cross-file use accepted iff the defining file is present. Through the API every permutation of every project's file list must give the same verdict and bytes, and a file's bytes must not depend on which unrelated files are present.",
+    design_ref="DESIGN.md §4 C13", note="Every transition is an execution of the real binary, so model/implementation conformance is checked on every edge (traces_validated = transitions). Hash seed pinned via the shim (seed dependence is C12's).",
+    technique="explicit-state BFS over operation histories of the real CLI binary against a reference model of the output tree; exhaustive permutation of file orders through the API",
+)
+
 REASON_PENDING = "check not built yet in this session (see DESIGN.md Appendix D build order); nothing is claimed for it"
 
 
